@@ -97,7 +97,11 @@ func main() {
 		if len(os.Args) < 3 {
 			usage()
 		}
-		runOracle(os.Args[2], out)
+		from := 0
+		if len(os.Args) > 3 {
+			from, _ = strconv.Atoi(os.Args[3])
+		}
+		runOracle(os.Args[2], from, out)
 	default:
 		usage()
 	}
